@@ -25,7 +25,10 @@ RULE = ("band.hist cases (initial compact storage with every padding slot set to
         "scales (f64 2^+-(100..800), Complex 2^+-(100..200); most cases need a row exchange and sit in the last quarter of the range; right-hand side moves with the matrix; mulv and solve judged, "
         "no det); (k) operators with special scalars (0, -0.0, 1, -1, 2, 1/2, +-i, 0.6+0.8i; B *= 0 included) and both operands the same object (&B + &B, &B - &B, "
         "owned forms compared); (l) every ordered pair of the 13 mutating operations (set, fill, fill_band, new, resize, +=/-= B borrowed and owned, *=, /=, += c, -= c) "
-        "with det/solve/mulv before, the state after each, and getall/size/det/solve/mulv/neg after (quick: a seeded third of the 169 pairs; thorough: all). "
+        "with mulv (Rat: also det and solve) before, the state after each, and getall/size/mulv/neg (Rat: also det and solve) after (quick: a seeded third of the 169 pairs; "
+        "thorough: all; element type Rat/f64/Complex 4:1:1 and sizes drawn per pair). Float entries (get, getall, dumped state, operator results) are compared normwise, "
+        "1e-11 * max|dense twin| (an entry that cancels to zero carries the rounding of its operands; bit-level agreement is the tie's demand); float det is judged to "
+        "1e-9 * (product of the row norms) and counted as det-float-unjudged in the coverage when that product is >= 1e300 or the twin has a non-finite entry. "
         "distinct = distinct executor line; non-trivial = n >= 2")
 TRUSTED = ["Coq 8.16.1 kernel + vm_compute", "Rust executor /verif/harness (Rat = i128 rationals; banded literals built through new/index_mut/resize)",
            "python driver: generators, dense-twin reference in Fraction / float, stream comparators",
@@ -33,7 +36,9 @@ TRUSTED = ["Coq 8.16.1 kernel + vm_compute", "Rust executor /verif/harness (Rat 
 ASSUMPTIONS = ["Rust semantics of Vec/usize/isize as modelled (checked indexing, debug overflow checks)",
                "`B += c` / `B -= c` are read as acting on the stored in-band entries (a banded matrix cannot hold the others)",
                "resize, indices with row >= n and division by zero are outside the claim (tied to the model, not judged by the oracle)",
-               "float backward error of solve is demanded (1e-11 normwise) only when cond_inf(D) <= 1e8; the theorems are about the model"]
+               "float backward error of solve is demanded (1e-11 normwise) only when cond_inf(D) <= 1e8; the theorems are about the model",
+               "Complex<f64> data is drawn within 2^+-200: beyond 2^+-511 the unscaled complex modulus/division return NaN (the recorded cause "
+               "cplx-sqmod-range of C01/C02/C15); not drawn, not suppressed"]
 UNPROVED = ["band_det = \\det of the dense twin is proved over every mathcomp fieldType and at Qc (band_det_is_det, band_det_spec); for an arbitrary FieldLaws arithmetic (R, C) only the abstract-determinant form (Proofs/BandedDet2.v band_det_abs) is available",
             "backward error: proved in the standard rounding model for the same Gallina functions (band_lu_backward_error: LU = PB + dB; band_solve_single_backward_error: (B + dB) x = b with |dB| <= (3 gam_N + gam_N^2)|L||U|; without row exchanges the constants depend on the bandwidth only, gam(3(m1+m2+1))); NOT proved: the growth factor |L||U| / |B| (with pivoting a row can be updated n-1 times whatever m1 is), band_det accuracy, and anything at binary64 (tie + search)",
             "operand non-mutation / owned = borrowed forms are run-time observations of the executor"]
@@ -504,4 +509,6 @@ def oracle(case, items):
     return walk(case.elt, m["B"], m["ops"], items, STATS)
 
 def extra_coverage():
-    return {"oracle_judgements": dict(STATS)}
+    d = {"det-float": 0, DET_UNJUDGED_RANGE: 0, DET_UNJUDGED_NONFINITE: 0}
+    d.update(STATS)
+    return {"oracle_judgements": d}
